@@ -207,6 +207,44 @@ def site_key(call, m):
     return "%s/%s.%s" % (call.fn.id, cont, m)
 
 
+def serialised_hash_rule(F, rep, rid):
+    """`#[derive(Serialize)]` iterates inside generated code: no loop of the repository mentions the container, yet a
+    HashMap / HashSet field is written entry by entry in the order of its RandomState - different in every process and
+    for every `HashMap::new()`.  The diagnostics handed to the host are serialised this way.  Decided on the types: the
+    closure of the types that implement serde's Serialize (through fields that are local types, Vec / Option / Box /
+    Rc of them) contains no field whose type mentions HashMap / HashSet; a field marked `#[serde(skip)]` cannot be
+    seen in the type facts and is not excused."""
+    import re as _re
+    roots = {i["self"].split("<")[0] for i in F.impls if (i.get("trait") or "").endswith("Serialize") and i.get("crate") in ("beff_core", "beff_wasm")}
+    by_last = {}
+    for k in F.adts:
+        by_last.setdefault(k.rsplit("::", 1)[-1], []).append(k)
+    seen, work = set(), []
+    for r in sorted(roots):
+        for k in by_last.get(r.rsplit("::", 1)[-1], []):
+            work.append((k, r))
+    n = 0
+    while work:
+        k, via = work.pop()
+        if k in seen:
+            continue
+        seen.add(k)
+        a = F.adts[k]
+        for v in a["variants"]:
+            for fl in v["fields"]:
+                n += 1
+                bad = _re.search(r"\bHash(Map|Set)<", fl["ty"])
+                rep.ob(rid, "%s.%s" % (k, fl["name"]), not bad,
+                       "%s.%s : %s is part of a serialised value (reached from %s, which implements Serialize): the derived serialiser writes its entries in hash order, so the text handed to the host differs from run to run for the same input" % (k, fl["name"], fl["ty"], via),
+                       "%s:%s" % (a["file"], a["line"]), sample={"type": k, "field": fl["name"], "field_type": fl["ty"]})
+                for m in _re.finditer(r"[A-Za-z_][\w:]*", fl["ty"]):
+                    nm = m.group(0).rsplit("::", 1)[-1]
+                    for k2 in by_last.get(nm, []):
+                        if k2 not in seen and F.adts[k2].get("crate") == a.get("crate"):
+                            work.append((k2, via))
+    rep.floor(rid, "fields of serialised types", n, 3)
+
+
 def run(cx, rep):
     F = cx.rs
     reach, parent, roots, exports = reachable(F)
@@ -294,6 +332,9 @@ def run(cx, rep):
     # registered modules differ from the first
     rep.rule("C10.5", "parsed modules are not changed by compiling them (no interior mutability, read-only comment map)")
     cached_modules_immutable_rule(cx, rep, "C10.5")
+    # ---------------------------------------------------------------- C10.7
+    rep.rule("C10.7", "no serialised type holds a hash container (derived Serialize writes the entries in iteration order)")
+    serialised_hash_rule(F, rep, "C10.7")
     rep.rule("C10.3", "beff-core holds no process-lifetime mutable state (static / thread_local)")
     core_statics = [s for s in F.statics if s["crate"] == "beff_core"]
     for s in core_statics:
